@@ -64,13 +64,13 @@ AlwaysPreds ==
 FinalOK ==
   (Parsing /\ Final(st, Disp)) =>
      /\ LET bad == SpecViolations(Cfg, Orc_, argv, st) IN
-          bad = {} \/ (PrintT(<<"SPECFAIL", f, argv, bad>>) /\ FALSE)
-     /\ (Emit => PrintT(<<"CASE", ToJson([def |-> f, argv |-> argv, disp |-> Disp, exp |-> Outcome(Cfg, st)])>>))
+          bad = {} \/ (PrintT(ToJson([k |-> "SPECFAIL", f |-> f, argv |-> argv, bad |-> bad])) /\ FALSE)
+     /\ (Emit => PrintT(ToJson([k |-> "CASE", def |-> f, argv |-> argv, disp |-> Disp, exp |-> Outcome(Cfg, st)])))
 
 RelOK ==
   (Relational /\ Parsing /\ st.act = "Init") =>
      LET bad == RelViolations(Cfg, Orc_, argv, Disp, Run(Cfg, Orc_, argv, Disp)) IN
-       bad = {} \/ (PrintT(<<"SPECFAIL", f, argv, bad>>) /\ FALSE)
+       bad = {} \/ (PrintT(ToJson([k |-> "SPECFAIL", f |-> f, argv |-> argv, bad |-> bad])) /\ FALSE)
 
 (* C19: every step decreases a lexicographic variant, so no parse is infinite *)
 VariantDecreases ==
